@@ -21,6 +21,9 @@ RULES = {
     "interprets, or a body",
     "responses": "Hypothesis: every response recipe (8 classes, cookies, header operations) used as application and as view result; "
     "status, header multiset and body must be equal on both interfaces",
+    "conditional": "Hypothesis: Files / Pages (bare and mounted) and FileResponse over files whose mtime and ctime are set apart through the harness's "
+    "stat clock; a plain GET, then a revalidation built from the validators the server itself handed out (own Last-Modified, dates around "
+    "mtime and ctime, own/weak/foreign ETag, Range + If-Range); non-trivial = mtime and ctime fall in different seconds",
     "apps": "Hypothesis: Router / Subpaths / Hosts compositions with echo and response leaves, Files / Pages over a generated tree with "
     "Range and conditional headers, view decorators and middleware stacks; same comparison plus path parameters; non-trivial = the "
     "request reaches a view or file (not a bare 404)",
@@ -150,7 +153,111 @@ def oracle_apps(case) -> Result:
     return r
 
 
-SUBS = {"echo": oracle_echo, "responses": oracle_responses, "apps": oracle_apps}
+def _httpdate(t):
+    from email.utils import formatdate
+
+    return formatdate(t, usegmt=True)
+
+
+def oracle_conditional(case) -> Result:
+    """Revalidation of files whose mtime and ctime differ (the harness owns the file clock): the
+    validators handed out and the 304/200/206 decision must be the same on both interfaces."""
+    import os
+
+    from harness import vfs
+
+    r = Result()
+    app = case["app"]
+    prefix = case.get("prefix", "")
+    root = recipes.materialise(TREE)
+    fr_root = None
+    if app["app"] in ("response", "view"):
+        rec_ = app["response"]
+        fr_root = recipes.materialise({rec_.get("name", "f.txt"): recipes.pattern(rec_["size"])})
+    mtime, ctime = case["mtime"], case["ctime"]
+    try:
+        for base in filter(None, (root, fr_root)):
+            for d, _dirs, files in os.walk(base):
+                for f in files:
+                    vfs.set_times(os.path.join(d, f), mtime, mtime, ctime)
+        rq0 = gw.areq(method="GET", path=prefix + case["path"], headers=[])
+        out0 = run_pair(app, rq0)
+        st0 = compare_runs(r, out0, f"app {app!r} clock mtime={mtime} ctime={ctime} plain GET {case['path']!r}")
+        heads = {k.lower(): v for k, v in out0["wsgi"][1]}
+        lm, etag = heads.get("last-modified"), heads.get("etag")
+        r.label(f"first={st0}")
+        if st0 == 200 and lm:
+            stamps = {
+                "own-last-modified": lm,
+                "mtime": _httpdate(mtime),
+                "ctime": _httpdate(ctime),
+                "between": _httpdate((mtime + ctime) / 2),
+                "before-both": _httpdate(min(mtime, ctime) - 86400),
+                "after-both": _httpdate(max(mtime, ctime) + 86400),
+                "mtime-1": _httpdate(mtime - 1),
+                "mtime+1": _httpdate(mtime + 1),
+                "ctime-1": _httpdate(ctime - 1),
+            }
+            tags = {"own-etag": etag or '"none"', "weak-own": "W/" + (etag or '"none"'), "other": '"other"', "star": "*", "list": '"x", ' + (etag or '"y"')}
+            hs = []
+            for kind, key in case["conds"]:
+                if kind == "ims":
+                    hs.append(["If-Modified-Since", stamps[key]])
+                elif kind == "inm":
+                    hs.append(["If-None-Match", tags[key]])
+                elif kind == "range":
+                    hs.append(["Range", key])
+                elif kind == "if-range-date":
+                    hs.append(["If-Range", stamps[key]])
+                elif kind == "if-range-tag":
+                    hs.append(["If-Range", tags[key]])
+            names = [h[0] for h in hs]
+            if len(set(names)) == len(names):
+                rq1 = gw.areq(method=case.get("method", "GET"), path=prefix + case["path"], headers=hs)
+                out1 = run_pair(app, rq1)
+                st1 = compare_runs(r, out1, f"app {app!r} clock mtime={mtime} ctime={ctime} revalidation {hs!r} of {case['path']!r}")
+                r.label(f"second={st1}", *[f"cond={k}:{v}" for k, v in case["conds"] if k != "range"])
+                r.nontrivial = int(mtime) != int(ctime)
+    finally:
+        vfs.clear_times(root)
+        if fr_root:
+            vfs.clear_times(fr_root)
+    return r
+
+
+@st.composite
+def conditional_case(draw):
+    shape = draw(st.sampled_from(["files", "pages", "files-mounted", "pages-mounted", "fileresponse"]))
+    prefix = ""
+    if shape == "fileresponse":
+        app = {"app": draw(st.sampled_from(["response", "view"])), "response": {"kind": "file", "size": draw(st.sampled_from([0, 1, 12, 64])), "name": "f.txt"}}
+        path = "/"
+    else:
+        app = {"app": shape.split("-")[0], "tree": TREE}
+        if shape.endswith("mounted"):
+            app = {"app": "subpaths", "mounts": [["/static", app]]}
+            prefix = "/static"
+        path = draw(st.sampled_from(["/file.txt", "/index.html", "/", "/p", "/p.html", "/dir/", "/dir/a.txt", "/é.txt", "/empty.bin", "/d2"]))
+    base = draw(st.sampled_from([1_000_000_000, 1_445_412_480, 1_700_000_000, 86_400 * 365]))
+    delta = draw(st.sampled_from([0, 1, -1, 2, 3600, -3600, 86400 * 30, -86400 * 30, 0.5, 59]))
+    keys = ["own-last-modified", "mtime", "ctime", "between", "before-both", "after-both", "mtime-1", "mtime+1", "ctime-1"]
+    tkeys = ["own-etag", "weak-own", "other", "star", "list"]
+    conds = []
+    mode = draw(st.integers(0, 5))
+    if mode <= 2:
+        conds.append(["ims", draw(st.sampled_from(keys))])
+    elif mode == 3:
+        conds.append(["inm", draw(st.sampled_from(tkeys))])
+    elif mode == 4:
+        conds.append(["inm", draw(st.sampled_from(tkeys))])
+        conds.append(["ims", draw(st.sampled_from(keys))])
+    else:
+        conds.append(["range", draw(st.sampled_from(["bytes=0-3", "bytes=1-", "bytes=-2", "bytes=0-0,2-3"]))])
+        conds.append(draw(st.sampled_from([["if-range-date", k] for k in keys] + [["if-range-tag", k] for k in tkeys[:3]])))
+    return {"app": app, "prefix": prefix, "path": path, "mtime": base, "ctime": base + delta, "conds": conds, "method": draw(st.sampled_from(["GET", "GET", "HEAD"]))}
+
+
+SUBS = {"echo": oracle_echo, "responses": oracle_responses, "apps": oracle_apps, "conditional": oracle_conditional}
 
 # ------------------------------------------------------------------------------------------
 # generators
@@ -198,12 +305,29 @@ def _body(draw, ctype):
     elif kind == "multipart":
         form = draw(gen.forms(max_parts=3, max_pieces=3))
         form["boundary"] = "XbX"
+        if draw(st.booleans()):
+            # a text field whose value is mostly multi-byte characters
+            cs = form["charset"]
+            text = draw(st.sampled_from(["café", "Zoë Köln", "中文字段", "naïve — “quoted”", "ééééé", "日本語のテキスト"]))
+            text = "".join(ch for ch in text if gen._enc_ok(ch, cs))
+            form["parts"].append({"name": "txt", "filename": None, "headers": [], "content": text.encode(cs)})
         for p in form["parts"]:
             while b"--XbX" in p["content"]:
                 p["content"] = p["content"].replace(b"--XbX", b"")
         raw = mref.encode(form)
     else:
         raw = draw(st.binary(max_size=40))
+    mode = draw(st.integers(0, 5))
+    if mode == 0 and 0 < len(raw) <= 600:
+        # every message boundary the server could choose: fixed-size slices of 1..3 bytes cut through
+        # multi-byte characters, CRLF pairs and delimiters alike
+        k = draw(st.integers(1, 3))
+        return kind, [raw[i:i + k] for i in range(0, len(raw), k)]
+    if mode == 1 and raw:
+        # one cut right inside a non-ASCII character, where there is one
+        hi = [i for i, b in enumerate(raw) if b >= 0x80 and i > 0]
+        if hi:
+            return kind, mref.chunks_from_cuts(raw, [draw(st.sampled_from(hi))])
     cuts = draw(st.lists(st.integers(0, max(len(raw), 1)), max_size=4))
     return kind, mref.chunks_from_cuts(raw, cuts)
 
@@ -325,5 +449,6 @@ def run(rec, only=None):
     core.drive_hypothesis(rec, "echo", echo_case(), oracle_echo, 1500 if quick else 40000)
     core.drive_hypothesis(rec, "responses", response_case(), oracle_responses, 1000 if quick else 25000, seed_offset=1)
     core.drive_hypothesis(rec, "apps", app_case(), oracle_apps, 1200 if quick else 30000, seed_offset=2)
+    core.drive_hypothesis(rec, "conditional", conditional_case(), oracle_conditional, 500 if quick else 12000, seed_offset=3)
     for k in SUBS:
         rec.exhaustive[k] = False
